@@ -163,6 +163,11 @@ def templates(tier, seed):
             T.append((f"back:{g}@{a}{b}", core_ + f"set R0 77770\nAGAIN:\n{g} Q0 Q1\nadd R0 R0 1\nblt R0 2 AGAIN\nk Q0\n"))
     # registers re-written between gates (the decomposition must follow the register's current value)
     T.append(("rewrite:cnot", "set Q0 0\nset Q1 1\ncnot Q0 Q1\nset Q0 2\ncnot Q1 Q0\nset Q1 0\ncphase Q0 Q1\n"))
+    # the same kind of gate twice with the electron held in a different register the second time (per-gate state must not be reused)
+    T.append(("rewrite:two_ce", "set Q0 1\nset Q1 0\ncnot Q0 Q1\nset Q1 2\nset Q0 0\ncnot Q1 Q0\n"))
+    T.append(("rewrite:two_ec", "set Q0 0\nset Q1 1\ncnot Q0 Q1\nset Q1 0\nset Q0 2\ncnot Q1 Q0\n"))
+    T.append(("rewrite:two_cphase", "set Q0 1\nset Q1 0\ncphase Q0 Q1\nset Q1 2\nset Q0 0\ncphase Q1 Q0\nh Q0\n"))
+    T.append(("rewrite:two_cc", "set Q1 1\nset Q2 2\ncnot Q1 Q2\nset Q0 1\nset Q1 2\ncnot Q1 Q0\n"))
     T.append(("rewrite:scratch", "set Q0 1\nset Q1 2\ncnot Q0 Q1\nset Q2 0\nh Q2\ncphase Q1 Q0\nx Q2\n"))
     T.append(("rewrite:two_cc", "set Q1 1\nset Q2 2\ncnot Q1 Q2\nset Q0 2\nx Q0\ncphase Q2 Q1\ny Q0\n"))
     # the same `set` inside a block that may be skipped and right after it; a loop body that starts with the pre-loop value and
